@@ -48,7 +48,11 @@ func (g *c01gen) literal(kind string, canonical bool) interface{} {
 		return float64(r.intn(5000))
 	case "langString":
 		m := map[string]interface{}{}
-		for i := 0; i < r.intn(4); i++ { // sometimes the empty map
+		n := r.intn(4) // sometimes the empty map (non-canonical stream only)
+		if canonical && n == 0 {
+			n = 1
+		}
+		for i := 0; i < n; i++ {
 			m[pick(r, []string{"en", "fr", "de", "ja"})] = fmt.Sprintf("text %d", r.intn(100))
 		}
 		return m
@@ -64,6 +68,44 @@ func (g *c01gen) literal(kind string, canonical bool) interface{} {
 		return pick(r, []string{"PT5S", "P1DT2H3M4S", "P1Y2M3D", "-PT30M", "P2Y", "PT1H"})
 	}
 	return "?"
+}
+
+// normKind: the tables name literal kinds "V:<xsd name>"
+func normKind(k string) string {
+	if strings.HasPrefix(k, "V:") {
+		return "@" + strings.ToLower(k[2:])
+	}
+	if strings.HasPrefix(k, "T:") { // the struct name of a type: its plain name
+		k = k[2:]
+		for _, pre := range []string{"ActivityStreams", "ForgeFed", "Toot", "W3IDSecurityV1"} {
+			if strings.HasPrefix(k, pre) {
+				return k[len(pre):]
+			}
+		}
+	}
+	return k
+}
+
+type sweepVal struct {
+	v         interface{}
+	canonical bool
+}
+
+// every sample of every literal kind; canonical: the lexical form the statement calls canonical (the round trip is the identity)
+var literalSweep = map[string][]sweepVal{
+	"@duration": {{"PT5S", true}, {"P1DT2H3M4S", true}, {"P1Y2M3D", true}, {"-PT30M", true}, {"P2Y", true}, {"PT1H", true}, {"P1Y2M", true},
+		{"P1Y2M3DT4H5M6S", true}, {"-P2Y11M", true}, {"P11M", true}, {"P1Y11M29DT23H59M59S", true}, {"P3M", true}, {"P1Y1D", true},
+		{"P40D", false}, {"PT90M", false}, {"PT3600S", false}, {"P12M", false}, {"P14M", false}, {"-P18M", false}, {"P400D", false}, {"PT0S", false}},
+	"@datetime": {{"2020-02-03T04:05:06Z", true}, {"1999-12-31T23:59:59Z", true}, {"2024-02-29T00:00:00+05:30", true}, {"2016-05-17T08:30:00-07:00", true},
+		{"2020-02-03T04:05:06+00:00", false}, {"2020-02-03T04:05Z", false}, {"2021-12-31T23:59:59-00:00", false}},
+	"@boolean":            {{true, true}, {false, true}, {float64(0), false}, {float64(1), false}},
+	"@float":              {{float64(0), true}, {float64(-1000), true}, {float64(999), true}},
+	"@nonnegativeinteger": {{float64(0), true}, {float64(1), true}, {float64(4999), true}},
+	"@string":             {{"plain text", true}, {"", true}, {"ünïcode", true}},
+	"@anyuri":             {{"https://example.com/a", true}, {"http://other.example:8080/x/y?q=1#f", true}, {"urn:isbn:0451450523", true}, {"mailto:a@example.com", true}},
+	"@bcp47":              {{"en", true}, {"en-US", true}},
+	"@rfc2045":            {{"text/html", true}},
+	"@rfc5988":            {{"me", true}},
 }
 
 func kindOfMember(m tblMember) (string, bool) { // (kind, isType)
@@ -86,7 +128,7 @@ func (g *c01gen) value(p *tblProp, depth int, canonical bool) interface{} {
 		return pick(r, []string{"https://example.com/iri/1", "https://remote.example/users/x", "https://www.w3.org/ns/activitystreams#Public"})
 	}
 	m := opts[n]
-	switch m.Kind {
+	switch normKind(m.Kind) {
 	case "@string", "@bcp47", "@rfc2045", "@rfc5988":
 		return g.literal(m.Kind[1:], canonical)
 	case "@anyuri":
@@ -107,7 +149,7 @@ func (g *c01gen) value(p *tblProp, depth int, canonical bool) interface{} {
 	if depth <= 0 {
 		return "https://example.com/too/deep"
 	}
-	if ty, ok := g.types[m.Kind]; ok && !ty.Typeless {
+	if ty, ok := g.types[normKind(m.Kind)]; ok && !ty.Typeless {
 		return g.doc(ty, depth-1, canonical, false)
 	}
 	return "https://example.com/iri/2"
@@ -149,6 +191,9 @@ func (g *c01gen) doc(ty *tblType, depth int, canonical, top bool) map[string]int
 		d["id"] = fmt.Sprintf("https://example.com/%s/%d", strings.ToLower(ty.Name), r.intn(1000))
 	}
 	nprops := r.intn(6)
+	if !top {
+		nprops = r.intn(3) // embedded values stay small: the documents grow with the product over the levels
+	}
 	for i := 0; i < nprops; i++ {
 		f := ty.Fields[r.intn(len(ty.Fields))]
 		pn := propJSONName(f.GoName)
@@ -156,11 +201,27 @@ func (g *c01gen) doc(ty *tblType, depth int, canonical, top bool) map[string]int
 		if !ok || pn == "type" || pn == "id" {
 			continue
 		}
+		if _, dup := d[pn]; dup {
+			continue
+		}
+		if _, dup := d[pn+"Map"]; dup {
+			continue
+		}
 		if p.Functional {
-			d[pn] = g.value(p, depth, canonical)
+			v := g.value(p, depth, canonical)
+			if _, isMap := v.(map[string]interface{}); isMap && p.HasMap {
+				if _, typed := v.(map[string]interface{})["type"]; !typed {
+					d[pn+"Map"] = v // a language map is written under the Map spelling
+					continue
+				}
+			}
+			d[pn] = v
 			continue
 		}
 		n := 1 + r.intn(4)
+		if !top {
+			n = 1 + r.intn(2)
+		}
 		var l []interface{}
 		for j := 0; j < n; j++ {
 			l = append(l, g.value(p, depth, canonical))
@@ -172,8 +233,9 @@ func (g *c01gen) doc(ty *tblType, depth int, canonical, top bool) map[string]int
 		key := pn
 		if p.HasMap {
 			if m, isMap := v.(map[string]interface{}); isMap {
-				_ = m
-				key = pn + "Map" // a single language map is written under the Map spelling
+				if _, typed := m["type"]; !typed {
+					key = pn + "Map" // a single language map is written under the Map spelling
+				}
 			}
 		}
 		d[key] = v
@@ -270,6 +332,72 @@ func runC01() {
 	var cases []string
 	var meta []interface{}
 	accepted, rejected := 0, 0
+	process := func(tyName string, canonical bool, d map[string]interface{}) {
+		b, _ := json.Marshal(d)
+		var m map[string]interface{}
+		_ = json.Unmarshal(b, &m)
+		var out, out2 interface{}
+		rtOnce := func(m map[string]interface{}) (res interface{}) {
+			defer func() {
+				if p := recover(); p != nil {
+					res = map[string]interface{}{"<panic>": fmt.Sprint(p)}
+				}
+			}()
+			v, err := streams.ToType(context.Background(), m)
+			if err != nil {
+				return nil
+			}
+			o, err := streams.Serialize(v)
+			if err != nil {
+				return nil
+			}
+			ob, _ := json.Marshal(o)
+			var om map[string]interface{}
+			_ = json.Unmarshal(ob, &om)
+			return om
+		}
+		func() {
+			defer func() {
+				if p := recover(); p != nil {
+					out = map[string]interface{}{"<panic>": fmt.Sprint(p)}
+				}
+			}()
+			v, err := streams.ToType(context.Background(), m)
+			if err != nil {
+				return
+			}
+			o, err := streams.Serialize(v)
+			if err != nil {
+				return
+			}
+			ob, _ := json.Marshal(o)
+			var om map[string]interface{}
+			_ = json.Unmarshal(ob, &om)
+			out = om
+		}()
+		if om, ok := out.(map[string]interface{}); ok {
+			ob, _ := json.Marshal(om)
+			var again map[string]interface{}
+			_ = json.Unmarshal(ob, &again)
+			out2 = rtOnce(again)
+		}
+		var b2 map[string]interface{}
+		_ = json.Unmarshal(b, &b2)
+		out2S := "None"
+		if out2 != nil {
+			out2S = "(Some " + em.json(out2, true) + ")"
+		}
+		outS := "None"
+		if out != nil {
+			outS = "(Some " + em.json(out, true) + ")"
+			accepted++
+		} else {
+			rejected++
+		}
+		cases = append(cases, fmt.Sprintf("(%s, %s, %s, %s)", coqBool(canonical), em.json(b2, true), outS, out2S))
+		meta = append(meta, map[string]interface{}{"type": tyName, "canonical": canonical, "document": b2, "round_trip": out})
+		s.Evaluations++
+	}
 	for _, ty := range t.Types {
 		if ty.Typeless {
 			continue
@@ -277,73 +405,93 @@ func runC01() {
 		ty := ty
 		for i := 0; i < per; i++ {
 			canonical := i%2 == 0
-			d := g.doc(&ty, 3, canonical, true)
-			b, _ := json.Marshal(d)
-			var m map[string]interface{}
-			_ = json.Unmarshal(b, &m)
-			var out, out2 interface{}
-			rtOnce := func(m map[string]interface{}) (res interface{}) {
-				defer func() {
-					if p := recover(); p != nil {
-						res = map[string]interface{}{"<panic>": fmt.Sprint(p)}
-					}
-				}()
-				v, err := streams.ToType(context.Background(), m)
-				if err != nil {
-					return nil
-				}
-				o, err := streams.Serialize(v)
-				if err != nil {
-					return nil
-				}
-				ob, _ := json.Marshal(o)
-				var om map[string]interface{}
-				_ = json.Unmarshal(ob, &om)
-				return om
-			}
-			func() {
-				defer func() {
-					if p := recover(); p != nil {
-						out = map[string]interface{}{"<panic>": fmt.Sprint(p)}
-					}
-				}()
-				v, err := streams.ToType(context.Background(), m)
-				if err != nil {
-					return
-				}
-				o, err := streams.Serialize(v)
-				if err != nil {
-					return
-				}
-				ob, _ := json.Marshal(o)
-				var om map[string]interface{}
-				_ = json.Unmarshal(ob, &om)
-				out = om
-			}()
-			if om, ok := out.(map[string]interface{}); ok {
-				ob, _ := json.Marshal(om)
-				var again map[string]interface{}
-				_ = json.Unmarshal(ob, &again)
-				out2 = rtOnce(again)
-			}
-			var b2 map[string]interface{}
-			_ = json.Unmarshal(b, &b2)
-			out2S := "None"
-			if out2 != nil {
-				out2S = "(Some " + em.json(out2, true) + ")"
-			}
-			outS := "None"
-			if out != nil {
-				outS = "(Some " + em.json(out, true) + ")"
-				accepted++
-			} else {
-				rejected++
-			}
-			cases = append(cases, fmt.Sprintf("(%s, %s, %s, %s)", coqBool(canonical), em.json(b2, true), outS, out2S))
-			meta = append(meta, map[string]interface{}{"type": ty.Name, "canonical": canonical, "document": b2, "round_trip": out})
-			s.Evaluations++
+			process(ty.Name, canonical, g.doc(&ty, 3, canonical, true))
 		}
 	}
+	// sweep 1: every sample of every literal kind on up to three properties whose range has that kind (one document each)
+	holder := func(pn string) *tblType { // a type that has the property
+		for i := range t.Types {
+			if t.Types[i].Typeless {
+				continue
+			}
+			for _, f := range t.Types[i].Fields {
+				if propJSONName(f.GoName) == pn {
+					return &t.Types[i]
+				}
+			}
+		}
+		return nil
+	}
+	sweeps := 0
+	for kind, samples := range literalSweep {
+		used := 0
+		for pi := range t.Props {
+			p := &t.Props[pi]
+			has := false
+			for _, m := range p.Members {
+				if normKind(m.Kind) == kind {
+					has = true
+				}
+			}
+			ty := holder(p.Name)
+			if !has || ty == nil || p.Name == "id" || p.Name == "type" || used >= 3 {
+				continue
+			}
+			used++
+			for _, sv := range samples {
+				d := map[string]interface{}{"@context": allContexts, "type": ty.Name, "id": "https://example.com/sweep/" + fmt.Sprint(sweeps), p.Name: sv.v}
+				process(ty.Name, sv.canonical, d)
+				sweeps++
+			}
+		}
+	}
+	// sweep 2: a property of one vocabulary on a type of another, holding an IRI / an embedded value of each type kind of its
+	// range: the rebuilt @context must name exactly the vocabularies used
+	for pi := range t.Props {
+		p := &t.Props[pi]
+		if p.Name == "id" || p.Name == "type" {
+			continue
+		}
+		parents := 0
+		for ti := range t.Types {
+			ty := &t.Types[ti]
+			if ty.Typeless || ty.VocabURI == p.VocabURI || parents >= 2 {
+				continue
+			}
+			hasField := false
+			for _, f := range ty.Fields {
+				if propJSONName(f.GoName) == p.Name {
+					hasField = true
+				}
+			}
+			if !hasField {
+				continue
+			}
+			parents++
+			kinds := 0
+			for _, m := range p.Members {
+				if strings.HasPrefix(normKind(m.Kind), "@") || m.Kind == "IRI" || kinds >= 2 {
+					continue
+				}
+				if et, ok := g.types[normKind(m.Kind)]; ok && !et.Typeless {
+					kinds++
+					emb := map[string]interface{}{"type": et.Name, "id": "https://example.com/embedded/" + fmt.Sprint(sweeps)}
+					var v interface{} = emb
+					d := map[string]interface{}{"@context": allContexts, "type": ty.Name, "id": "https://example.com/sweep/" + fmt.Sprint(sweeps), p.Name: v}
+					process(ty.Name, true, d)
+					sweeps++
+					// the same nested one level down, under an ActivityStreams Create
+					process("Create", true, map[string]interface{}{"@context": allContexts, "type": "Create", "id": "https://example.com/sweep/c" + fmt.Sprint(sweeps),
+						"object": map[string]interface{}{"type": ty.Name, "id": "https://example.com/sweep/" + fmt.Sprint(sweeps), p.Name: emb}})
+					sweeps++
+				}
+			}
+			d := map[string]interface{}{"@context": allContexts, "type": ty.Name, "id": "https://example.com/sweep/" + fmt.Sprint(sweeps), p.Name: "https://example.com/iri/only"}
+			process(ty.Name, true, d)
+			sweeps++
+		}
+	}
+	s.Dist["sweep_documents"] = sweeps
 	var sb strings.Builder
 	sb.WriteString("From Coq Require Import String List ZArith.\nFrom Verif Require Import Base.Json.\nImport ListNotations.\nOpen Scope string_scope.\n")
 	sb.WriteString(em.defs.String())
